@@ -21,7 +21,7 @@ RULE = (
     "contents), (b) with each general rule violated at a random position, (c) with each plug-in rule "
     "violated (dbc/can_c: unknown struct; dbc: duplicate CAN id; can_c: 65..72 bit message), (d) with "
     "a synthetic always-rejecting check registered in each of the 8 verifier categories, before or "
-    "after the general checks, as the first of two same-named checks, or registered on the verifier only after its GeneratorManager was constructed; (e) with ONE manager, verifier and schema object that is accepted and generated from once and then edited in place into an ill-formed tree.  Output directory states: absent, empty, unrelated files, files with "
+    "after the general checks, as the first of two same-named checks, registered on the verifier only after its GeneratorManager was constructed, or failing through the Maybe idiom (returns Nothing() instead of Err); (e) with ONE manager, verifier and schema object that is accepted and generated from once and then edited in place into an ill-formed tree.  Output directory states: absent, empty, unrelated files, files with "
     "the very names the generator writes (other text, a CRLF copy of the output, bytes that are not "
     "UTF-8, an identical copy; <stem>.tmp/.bak/.orig siblings of every output), stale .c/.h files.  Monitors: return value must be Err; a "
     "sys.addaudithook event log of every write-open / remove / rename / mkdir / rmdir during the "
@@ -221,6 +221,15 @@ def drive(run, gen_name, t, expect_reject, source, dir_state, root, probe=None, 
             called["n"] += 1
             return error("synthetic rejection in category %s" % cat)
 
+        if position == "nothing":
+            # a check that fails through the project's Maybe idiom instead of returning Err: it returns
+            # Nothing(), on which every caller's .attempt() gives up
+            from fcp.maybe import Nothing
+
+            def reject(self, fcp_, node):  # noqa: F811
+                called["n"] += 1
+                return Nothing()
+
         if position == "pair":
             # two different checks that happen to share their __name__ (closures of one helper): the
             # first rejects, the second accepts - both are registered checks and both must run
@@ -276,6 +285,8 @@ def drive(run, gen_name, t, expect_reject, source, dir_state, root, probe=None, 
                 return
             run.count("rejected_by_another_check_first")
         is_err = raised is None and type(result).__name__ == "Err"
+        if probe is not None and probe[1] == "nothing" and raised is None and type(result).__name__ == "Nothing":
+            is_err = True  # the failure travels as Nothing() all the way: still "not Ok", i.e. an error is reported
         if not is_err:
             if raised is not None and probe is None and source.startswith("plugin"):
                 # a plug-in check that raises instead of returning Err still reports an error
@@ -449,7 +460,7 @@ def run(run):
                 drive(run, g, inject_plugin(rr, t, "oversize"), True, "plugin/oversize", rr.choice(DIR_STATES), root, known_names=names)
             # (d) synthetic rejecting check in every category
             for cat in CATEGORIES:
-                for pos in ("last", "first", "pair", "late"):
+                for pos in ("last", "first", "pair", "late", "nothing"):
                     drive(run, g, t, True, "synthetic/%s/%s" % (cat, pos), rr.choice(DIR_STATES), root, probe=(cat, pos), known_names=names)
         if run.shard == 0:
             cli_cases(run, root)
